@@ -50,7 +50,7 @@ class Check(common.Check):
     THEOREMS = ['Sc3Verif.C04.' + t for t in (
         'names_in_declaration_order', 'level_indices_closed_form', 'layout_by_rate_then_decl', 'classify_spec', 'units_partition_slots',
         'name_index_points_to_defaults', 'body_receives_slots', 'lags_carried', 'later_levels_keep_earlier',
-        'wrap_levels_concatenate', 'variants_overlay', 'variant_block_spec', 'variant_block_length',
+        'wrap_levels_concatenate', 'rates_padding_idempotent', 'variants_overlay', 'variant_block_spec', 'variant_block_length',
         'variants_wellformed', 'call_maps_args')]
     N_QUICK = 1200
     N_THOROUGH = 20000
@@ -131,6 +131,15 @@ class Check(common.Check):
         top = self.g_level(rng, names, 0, 40)
         ctl = [p for lv in I.preorder(top) for p in I.level_params(lv)]
         case = {'top': top, 'specs': None, 'variants': [], 'call': None}
+        levels = I.preorder(top)
+        if rng.random() < (0.5 if len(levels) > 1 else 0.1):
+            # ONE rates list object (short, with None entries) shared by the graph function and all
+            # wrapped functions: the layout must be that of fresh copies of the same value
+            m = rng.randint(0, max(len(I.level_params(lv)) for lv in levels))
+            shared = [rng.choice([None, None, None, rng.choice(RATES), rng.choice(LAGS)]) for _ in range(m)]
+            for lv in levels:
+                lv['rates'] = list(shared)
+            case['shared_rates'] = True
         if rng.random() < 0.35:
             case['specs'] = {p['n']: rng.choice(VALS) for p in ctl if rng.random() < 0.5}
         if ctl and rng.random() < 0.6:
@@ -377,6 +386,14 @@ class Check(common.Check):
                         return {'what': f"unit of {p['n']} has inputs {u['lags']}", 'signature': 'lags'}
                     if u['cls'] == 'LagControl' and u['n'] > 16:
                         return {'what': 'LagControl with more than 16 channels', 'signature': 'lags:clump'}
+        # 4a. the caller's rates / prepend / variants objects are not modified, and a second build from
+        #     the same objects gives the same definition
+        if io.get('args_after') != io.get('args_before'):
+            return {'what': f"building modified the caller's arguments: [rates, prepend, variants] was "
+                            f"{io.get('args_before')[:160]}, is {io.get('args_after')[:160]}", 'signature': 'args:mutated'}
+        if io.get('rebuild_same') is not True:
+            return {'what': f"a second build from the same function and argument objects gives different bytes "
+                            f"({io.get('rebuild_same')})", 'signature': 'rebuild:differs'}
         # 4b. prepended values reach the body unchanged
         for li, lv in enumerate(levels):
             want = [str(int(v * I.SCALE)) for v in (lv.get('prepend') or [])]
@@ -439,6 +456,8 @@ class Check(common.Check):
                 inc('prepend')
             if c.get('specs') is not None:
                 inc('specs')
+            if c.get('shared_rates'):
+                inc('shared_rates_object')
             inc(f"variants:{len(c.get('variants') or [])}")
             if c.get('call') is not None:
                 inc('call')
